@@ -2,3 +2,5 @@ import PqVerif.Driver.Comb
 import PqVerif.Driver.Expr
 import PqVerif.Driver.Engine
 import PqVerif.Driver.Program
+import PqVerif.Driver.Gauss
+import PqVerif.Driver.GaussRep
